@@ -10,6 +10,7 @@ import (
 	"os"
 	"runtime"
 	"runtime/debug"
+	"runtime/pprof"
 	"sort"
 	"time"
 
@@ -243,7 +244,14 @@ func main() {
 	genOnly := flag.Bool("gen", false, "print the run specs of the batch instead of executing them")
 	upto := flag.Int("upto", -1, "with -gen: only runs 0..upto")
 	noCold := flag.Bool("nocold", false, "no cold first run")
+	cpuprof := flag.String("cpuprofile", "", "write a CPU profile (development aid)")
 	flag.Parse()
+	if *cpuprof != "" {
+		if f, err := os.Create(*cpuprof); err == nil {
+			_ = pprof.StartCPUProfile(f)
+			defer pprof.StopCPUProfile()
+		}
+	}
 
 	debug.SetGCPercent(200)
 	if *tier == "thorough" {
